@@ -727,6 +727,12 @@ def run_property(mod, tier: str, seed: int, only: Optional[List[str]] = None, sc
             flush=True,
         )
 
+    if hasattr(mod, "post_check") and not only:
+        try:
+            harness_errors.extend(mod.post_check(sub_reports, tier) or [])
+        except Exception:
+            harness_errors.append("post_check:\n" + traceback.format_exc())
+
     for sig, entry in open_findings.items():
         hits = known_hits.get(sig, 0)
         print(f"KNOWN-FINDING: property={prop} {sig}: {entry.get('what','')} (hit {hits} times in this run)")
